@@ -2,7 +2,9 @@ package sim
 
 import (
 	"encoding/json"
+	"fmt"
 	"math/rand/v2"
+	"strings"
 	"testing/synctest"
 	"time"
 
@@ -356,4 +358,200 @@ func init() {
 	register(&Profile{Name: "C06", Decide: []string{"C06"}, Quick: 6000, Thorough: 300000, Gen: genC06, Body: bodyC06,
 		NonVacuous: []string{"C06.sync"}, Chunk: 200,
 		Rule: "State injection: a canary in progress with 0-3 canary pods whose restart counts sit at, just below and just above both thresholds, waiting reasons inside/outside the cannot-start set, start times around maxSlowStartDuration; autoPause/autoFail enabled combinations and threshold pairs; previous Canary, PodRestarting, Canary-Paused, Canary-Failed conditions with ages around maxRestartsDuration and canaryTimeout; pause/unpause annotations; then one canary-role sync through the real Reconcile (optionally stalled between two calls, optionally with skewed kubelet/API clocks), followed by 0-4 further syncs with kubelet restart storms in between."})
+}
+
+// ---------------------------------------------------------------------------------------
+// C15: canary node selection under node churn.
+
+func genC15(r *rand.Rand, tier string, idx int) *World {
+	w := &World{DefaultValidationMode: "auto", Extra: map[string]string{}}
+	w.AffinityMode = chance(r, 0.3)
+	maxN := 8
+	if tier == "thorough" {
+		maxN = 16
+	}
+	n := 2 + r.IntN(maxN-1)
+	var restarts []int
+	for i := 0; i < n; i++ {
+		nd := &NodeDef{Name: nodeName(i), Labels: map[string]string{}}
+		if chance(r, 0.8) {
+			nd.Labels["zone"] = pick(r, "a", "b", "c")
+		}
+		if chance(r, 0.6) {
+			nd.Labels["pool"] = pick(r, "x", "y")
+		}
+		if chance(r, 0.6) {
+			nd.Labels["canary"] = "yes"
+		}
+		if chance(r, 0.15) {
+			nd.Taints = []string{pick(r, "dedicated:NoSchedule", "evict:NoExecute", "soft:PreferNoSchedule", "node.kubernetes.io/unschedulable:NoSchedule")}
+		}
+		w.Nodes = append(w.Nodes, nd)
+		restarts = append(restarts, pick(r, 0, 0, 0, 1, 2, 5))
+	}
+	b, _ := json.Marshal(restarts)
+	w.Extra["restarts"] = string(b)
+	can := &CanaryDef{Replicas: pick(r, "1", "2", "3", "4", "25%", "50%", "100%"), Duration: "6h"}
+	if chance(r, 0.4) {
+		can.NodeSelector = map[string]string{"canary": "yes"}
+	}
+	switch r.IntN(4) {
+	case 0:
+		can.AntiAffinityKeys = []string{"zone"}
+	case 1:
+		can.AntiAffinityKeys = []string{"zone", "pool"}
+	}
+	tpl := &TemplateDef{Letter: "A"}
+	if chance(r, 0.3) {
+		tpl.Tolerate = []string{pick(r, "dedicated", "evict")}
+	}
+	if chance(r, 0.2) {
+		tpl.NodeSelector = map[string]string{"pool": "x"}
+	}
+	e := &EDSDef{NS: "ns1", Name: "foo", Initial: "A", Templates: map[string]*TemplateDef{"A": tpl, "B": tpl.withLetter("B")}}
+	e.Strategy = StrategyDef{ReconcileFrequency: "10s", Canary: can, SlowStartIncrease: "100%", SlowStartInterval: "10s"}
+	w.EDS = []*EDSDef{e}
+	w.Extra["churn"] = fmt.Sprint(r.IntN(5))
+	w.Cfg = Config{Kubelet: true, NodeChurn: true}
+	if idx%3 == 2 {
+		w.Cfg.PReject = pick(r, 0.02, 0.1)
+	}
+	return w
+}
+
+func bodyC15(s *Sim) {
+	s.Setup()
+	def := s.W.EDS[0]
+	key := types.NamespacedName{Namespace: def.NS, Name: def.Name}
+	var restarts []int
+	_ = json.Unmarshal([]byte(s.W.Extra["restarts"]), &restarts)
+	s.bootstrap(def)
+	a := s.ersByLetter(def, "A")
+	if a == nil {
+		panic("c15: no replica set A")
+	}
+	for i, n := range s.Store.Nodes() {
+		if eligible(n, def.Templates["A"]) {
+			s.injectPod(a, n, PodState{Kind: "ready", Restarts: int32(restarts[i])})
+		}
+	}
+	s.RunTask(CtrlERS, types.NamespacedName{Namespace: a.Namespace, Name: a.Name})
+	s.RunTask(CtrlEDS, key)
+	s.userSetTemplate(def.NS, def.Name, "B")
+	s.phase = "body"
+	s.faultyDrain = true
+	s.RunTask(CtrlEDS, key) // creates the canary replica set
+	s.RunTask(CtrlEDS, key) // selects the canary nodes
+	churn := 0
+	fmt.Sscan(s.W.Extra["churn"], &churn)
+	for i := 0; i < churn; i++ {
+		acts := s.adminActions()
+		// bias towards the selected nodes
+		e := s.Store.GetEDS(def.NS, def.Name)
+		var biased []Action
+		if e != nil && e.Status.Canary != nil {
+			for _, a := range acts {
+				for _, cn := range e.Status.Canary.Nodes {
+					if strings.Contains(a.K, " "+cn+" ") || strings.HasSuffix(a.K, " "+cn) {
+						biased = append(biased, a)
+					}
+				}
+			}
+		}
+		pool := acts
+		if len(biased) > 0 && s.rngEnv.IntN(3) != 0 {
+			pool = biased
+		}
+		if len(pool) > 0 {
+			act := pool[s.rngEnv.IntN(len(pool))]
+			s.logf("env %s", act.K)
+			s.Stats.Env[strings.SplitN(act.K, " ", 2)[0]]++
+			act.Do()
+		}
+		if s.rngEnv.IntN(2) == 0 {
+			s.Advance(11 * time.Second)
+			for _, r := range s.Store.ERSs() {
+				s.RunTask(CtrlERS, types.NamespacedName{Namespace: r.Namespace, Name: r.Name})
+			}
+			s.settleAll()
+		}
+		s.RunTask(CtrlEDS, key)
+	}
+	s.faultyDrain = false
+}
+
+func init() {
+	register(&Profile{Name: "C15", Decide: []string{"C15"}, Quick: 5000, Thorough: 250000, Gen: genC15, Body: bodyC15,
+		NonVacuous: []string{"C15.selection"}, Chunk: 200,
+		Rule: "Node populations of 2-8 (thorough: 2-16) nodes with zone/pool/canary labels, taints and a per-node restart history of the running daemon pods; canary replicas as number or percent, optional canary node selector, 0-2 anti-affinity keys; the canary is started through the real reconciler (fresh selection), then 0-4 rounds of node deletion, relabelling or tainting biased onto the selected nodes, each followed by replica-set syncs and an ExtendedDaemonSet reconcile whose status is judged; API rejects injected in a third of the runs."})
+}
+
+// ---------------------------------------------------------------------------------------
+// C17: race-detector build, parallel batches released together, none/some/all failing.
+
+func genC17(r *rand.Rand, tier string, idx int) *World {
+	w := &World{DefaultValidationMode: "auto", Extra: map[string]string{}}
+	w.AffinityMode = chance(r, 0.5)
+	n := pick(r, 2, 3, 5, 8, 16, 33, 64)
+	if tier == "quick" && n > 33 {
+		n = 33
+	}
+	nTaint := 0
+	for i := 0; i < n; i++ {
+		nd := &NodeDef{Name: nodeName(i)}
+		if chance(r, 0.25) {
+			nd.Taints = []string{"dedicated:NoSchedule"} // ineligible: pods injected here are clean-up work
+			nTaint++
+		}
+		w.Nodes = append(w.Nodes, nd)
+	}
+	e := &EDSDef{NS: "ns1", Name: "foo", Initial: "A", Templates: map[string]*TemplateDef{"A": {Letter: "A"}, "B": {Letter: "B"}}}
+	e.Strategy = StrategyDef{MaxUnavailable: pick(r, "100%", "50%", "3"), SlowStartIncrease: "100%", SlowStartInterval: "10s", ReconcileFrequency: "10s"}
+	if chance(r, 0.4) {
+		e.Strategy.Canary = &CanaryDef{Replicas: pick(r, "1", "3"), Duration: "1m"}
+	}
+	w.EDS = []*EDSDef{e}
+	w.Extra["batchFail"] = []string{"none", "some", "all"}[idx%3]
+	w.Extra["c17"] = "1"
+	w.Cfg = Config{ChaosSteps: pick(r, 30, 80), Kubelet: true, KubeletFaults: chance(r, 0.3), CLI: true, TemplateEdits: true, Stall: false, QuiesceRounds: 3}
+	w.Settings = []*SettingDef{{NS: "ns1", Name: "set0", Ref: "foo", Selector: map[string]string{"zone": "a"}, Container: "main", Cpu: "500m"}}
+	return w
+}
+
+func bodyC17(s *Sim) {
+	s.batchMode = true
+	s.Setup()
+	def := s.W.EDS[0]
+	key := types.NamespacedName{Namespace: def.NS, Name: def.Name}
+	s.bootstrap(def)
+	a := s.ersByLetter(def, "A")
+	if a == nil {
+		panic("c17: no replica set A")
+	}
+	rk := types.NamespacedName{Namespace: a.Namespace, Name: a.Name}
+	// a sync with many simultaneous creations
+	s.RunTask(CtrlERS, rk)
+	s.settleAll()
+	s.RunTask(CtrlEDS, key)
+	// inject clean-up work: pods on ineligible nodes and duplicates
+	for i, n := range s.Store.Nodes() {
+		if len(n.Spec.Taints) > 0 {
+			s.injectPod(a, n, PodState{Kind: "ready"})
+		} else if i%3 == 0 {
+			s.injectPod(a, n, PodState{Kind: "ready", AgeSec: 10, Suffix: "-dup"})
+		}
+	}
+	s.Advance(11 * time.Second)
+	s.RunTask(CtrlERS, rk)
+	s.settleAll()
+	// a template change: simultaneous update-deletions (and a canary in some worlds)
+	s.userSetTemplate(def.NS, def.Name, "B")
+	s.Chaos()
+	s.Quiesce()
+}
+
+func init() {
+	register(&Profile{Name: "C17", Decide: []string{"C17"}, Quick: 200, Thorough: 5000, Gen: genC17, Body: bodyC17,
+		NonVacuous: []string{"C17.batch"}, Chunk: 4,
+		Rule: "Harness and repository built with the race detector. Clusters of 2-64 nodes (a quarter tainted, so that injected pods there and injected duplicates are clean-up work); syncs with many simultaneous creations, clean-up deletions and update-deletions; every parked call of a parallel batch is executed and then released together so the goroutines really run concurrently; none / some / all of the batch's calls are made to fail, chosen by call identity; the four reconcilers, kubelet and kubectl-eds commands overlap in a seeded chaos phase. A race report (exit 66) is a violation; the error-reflection monitor runs on every sync whose status write succeeded."})
 }
